@@ -3,6 +3,7 @@
 package c03
 
 import (
+	"cedarverif/internal/ltrace"
 	"fmt"
 	"time"
 
@@ -68,5 +69,21 @@ func run(c *core.Ctx) {
 		c.Note(fmt.Sprintf("%d handshakes ran into the %s deadline", st.Timeouts, evilreplay.Deadline))
 	}
 	c.Set("exhaustive", true)
+	// code -> spec: handshake outcomes and connection life cycles recorded from the
+	// repository's own tests (hooks on) are validated by TLC (ConnLifecycle_Trace:
+	// HandshakeOK per outcome, key before post-auth ad, no cleartext after a
+	// REQUIRED-encryption handshake).
+	pkgs := []string{"./server/", "./client/...", "./ccb/"}
+	if c.Thorough() {
+		pkgs = append(pkgs, "./security/")
+	}
+	if groups, err := ltrace.RunRepoTests(c, pkgs...); err != nil {
+		c.Broken("cannot collect repository test traces: %v", err)
+	} else if len(groups) == 0 {
+		c.Broken("repository tests with hooks on produced no life-cycle trace")
+	} else {
+		c.Add("repo_test_lifecycle_groups", int64(len(groups)))
+		ltrace.Validate(c, groups, "repo-tests", func(e ltrace.Event) bool { return e["ev"] != "Dispatch" })
+	}
 	c.Set("rule", "scenario = (role, 4x4 own policy [+ integrity-only REQUIRED in thorough], own method list, honest peer level, fresh/resumed + session kind, set of deviation switches), every one enumerated by TLC from HandshakeEvil.tla; each scenario is ONE real handshake of security.Authenticator against the scripted peer (two for resumed: establish, resume) followed by one application message; the projected outcome must be a terminal state the specification allows for that scenario; distinct = distinct scenario; all executed scenarios are non-trivial")
 }
